@@ -18,11 +18,6 @@ structure IsMont (M : Mont α) (R Rinv : α) : Prop where
   toM : ∀ x, M.toM x = x * R
   ofM : ∀ x, M.ofM x = x * Rinv
 
-/-- an error draw whose `ReadAndAdd` adds what `Read` reads -/
-def ErrDraw.Honest (xe : ErrDraw α) : Prop := ∀ c, xe.readAndAdd c = some (c + xe.e)
-
-theorem ErrDraw.dense_honest (e : α) : (ErrDraw.dense e).Honest := fun _ => rfl
-
 /-- the specification of decryption: `Σ c_i s^i` -/
 def phase (s : α) : List α → α
   | [] => 0
@@ -41,9 +36,33 @@ theorem mulMont_toM {M : Mont α} {R Rinv : α} (h : IsMont M R Rinv) (x s : α)
 theorem ofM_toM {M : Mont α} {R Rinv : α} (h : IsMont M R Rinv) (x : α) : M.ofM (M.toM x) = x := by
   rw [h.ofM, h.toM, mul_assoc, h.inv, mul_one]
 
-theorem addErr_honest (isNTT : Bool) {xe : ErrDraw α} (hx : xe.Honest) (c : α) :
-    addErr isNTT xe c = some (c + xe.e) := by
-  unfold addErr; cases isNTT <;> simp [hx c]
+theorem toM_add {M : Mont α} {R Rinv : α} (h : IsMont M R Rinv) (x y : α) :
+    M.toM (x + y) = M.toM x + M.toM y := by simp only [h.toM]; ring
+
+theorem ofM_add {M : Mont α} {R Rinv : α} (h : IsMont M R Rinv) (x y : α) :
+    M.ofM (x + y) = M.ofM x + M.ofM y := by simp only [h.ofM]; ring
+
+theorem montIf_add {M : Mont α} {R Rinv : α} (h : IsMont M R Rinv) (b : Bool) (x y : α) :
+    montIf M b (x + y) = montIf M b x + montIf M b y := by
+  cases b <;> simp [montIf, toM_add h]
+
+/-- what a value flagged by `b` denotes, after `montIf b` -/
+theorem denote_montIf {μ : Type} {M : Mont α} {R Rinv : α} (h : IsMont M R Rinv) (md : MetaData μ) (x : α) :
+    denote M md (montIf M md.isMont x) = x := by
+  unfold denote montIf
+  cases md.isMont <;> simp [ofM_toM h]
+
+theorem denote_add {μ : Type} {M : Mont α} {R Rinv : α} (h : IsMont M R Rinv) (md : MetaData μ) (x y : α) :
+    denote M md (x + y) = denote M md x + denote M md y := by
+  unfold denote
+  cases md.isMont <;> simp [ofM_add h]
+
+theorem phase_clear (s : α) (l : List α) : phase s (l.map fun o => o - o) = 0 := by
+  induction l with
+  | nil => rfl
+  | cons x xs ih =>
+    show (x - x) + s * phase s (xs.map fun o => o - o) = 0
+    rw [ih, sub_self, mul_zero, add_zero]
 
 /-! ### decryption is Horner evaluation -/
 
@@ -82,22 +101,35 @@ theorem decrypt_none {μ : Type} (M : Mont α) (sM : α) (md : MetaData μ) :
 
 /-! ### secret-key encryption -/
 
-theorem encryptZeroSk_deg1 {M : Mont α} {R Rinv : α} (h : IsMont M R Rinv) (isNTT : Bool) (o0 o1 a s : α)
-    {xe : ErrDraw α} (hx : xe.Honest) :
-    encryptZeroSk M isNTT [o0, o1] a xe (M.toM s) = some [-(a * s) + xe.e, a] := by
-  simp [encryptZeroSk, addErr_honest isNTT hx, mulMont_toM h]
+theorem encryptZeroSk_deg0 {M : Mont α} {R Rinv : α} (h : IsMont M R Rinv) (isMont : Bool) (o0 a e s : α) :
+    encryptZeroSk M isMont [o0] a e (M.toM s) = some [-(a * s) + montIf M isMont e] := by
+  simp [encryptZeroSk, mulMont_toM h]
 
-theorem encryptZeroSk_deg0 {M : Mont α} {R Rinv : α} (h : IsMont M R Rinv) (isNTT : Bool) (o0 a s : α)
-    {xe : ErrDraw α} (hx : xe.Honest) :
-    encryptZeroSk M isNTT [o0] a xe (M.toM s) = some [-(a * s) + xe.e] := by
-  simp [encryptZeroSk, addErr_honest isNTT hx, mulMont_toM h]
+/-- every target of degree ≥ 1 receives `(−a·s + e', a)` in its first two components -/
+theorem encryptZeroSk_degGe1 {M : Mont α} {R Rinv : α} (h : IsMont M R Rinv) (isMont : Bool)
+    (o0 o1 a e s : α) (rest : List α) :
+    encryptZeroSk M isMont (o0 :: o1 :: rest) a e (M.toM s)
+      = some ((-(a * s) + montIf M isMont e) :: a :: rest) := by
+  simp [encryptZeroSk, mulMont_toM h]
 
-/-- a target of degree ≥ 2 keeps `Value[1:]`: the drawn `a` is lost -/
-theorem encryptZeroSk_degGe2 {M : Mont α} {R Rinv : α} (h : IsMont M R Rinv) (isNTT : Bool)
-    (o0 o1 o2 a s : α) (rest : List α) {xe : ErrDraw α} (hx : xe.Honest) :
-    encryptZeroSk M isNTT (o0 :: o1 :: o2 :: rest) a xe (M.toM s)
-      = some ((-(a * s) + xe.e) :: o1 :: o2 :: rest) := by
-  simp [encryptZeroSk, addErr_honest isNTT hx, mulMont_toM h]
+theorem ezSk_degGe1 {μ : Type} {M : Mont α} {R Rinv : α} (h : IsMont M R Rinv) (md : MetaData μ)
+    (o0 o1 a e s : α) (rest : List α) :
+    ezSk M a e (M.toM s) md (o0 :: o1 :: rest)
+      = some ((-(a * s) + montIf M md.isMont e) :: a :: rest.map (fun o => o - o)) := by
+  simp [ezSk, clearTail, encryptZeroSk_degGe1 h]
+
+theorem ezSk_deg0 {μ : Type} {M : Mont α} {R Rinv : α} (h : IsMont M R Rinv) (md : MetaData μ) (o0 a e s : α) :
+    ezSk M a e (M.toM s) md [o0] = some [-(a * s) + montIf M md.isMont e] := by
+  simp [ezSk, clearTail, encryptZeroSk_deg0 h]
+
+/-- phase of `(−a·s + e + m, a, 0, …, 0)` -/
+theorem phase_encSk_tail (a e s m : α) (rest : List α) :
+    phase s ((-(a * s) + e + m) :: a :: rest.map (fun o => o - o)) = m + e := by
+  simp only [phase, phase_clear]; ring
+
+theorem phase_encSk_wrong_key_tail (a e s s' m : α) (rest : List α) :
+    phase s' ((-(a * s) + e + m) :: a :: rest.map (fun o => o - o)) - m = e + a * (s' - s) := by
+  simp only [phase, phase_clear]; ring
 
 theorem phase_encSk (a e s m : α) : phase s [-(a * s) + e + m, a] = m + e := by
   simp [phase]; ring
@@ -135,18 +167,36 @@ theorem genPublicKey_relation {β : Type} [CommRing β] {M : Mont β} {R Rinv : 
   simp only [ofM_toM h]
   ring
 
-theorem encryptZeroPkNoP_deg1 {M : Mont α} {R Rinv : α} (h : IsMont M R Rinv) (isNTT : Bool)
-    (o0 o1 u pk0 pk1 : α) (rest : List α) {xe0 xe1 : ErrDraw α} (h0 : xe0.Honest) (h1 : xe1.Honest) :
-    encryptZeroPkNoP M isNTT (o0 :: o1 :: rest) u xe0 xe1 (M.toM pk0) (M.toM pk1)
-      = some ((u * pk0 + xe0.e) :: (u * pk1 + xe1.e) :: rest) := by
-  simp [encryptZeroPkNoP, addErr_honest isNTT h0, addErr_honest isNTT h1, mulMont_toM h]
+theorem encryptZeroPkNoP_degGe1 {M : Mont α} {R Rinv : α} (h : IsMont M R Rinv) (isMont : Bool)
+    (o0 o1 u e0 e1 pk0 pk1 : α) (rest : List α) :
+    encryptZeroPkNoP M isMont (o0 :: o1 :: rest) u e0 e1 (M.toM pk0) (M.toM pk1)
+      = some (montIf M isMont (u * pk0 + e0) :: montIf M isMont (u * pk1 + e1) :: rest) := by
+  simp [encryptZeroPkNoP, mulMont_toM h]
 
-theorem encryptZeroPkNoP_deg0 (M : Mont α) (isNTT : Bool) (o : List α) (ho : o.length ≤ 1)
-    (u : α) (xe0 xe1 : ErrDraw α) (pk0M pk1M : α) :
-    encryptZeroPkNoP M isNTT o u xe0 xe1 pk0M pk1M = none := by
+theorem ezPkNoP_degGe1 {μ : Type} {M : Mont α} {R Rinv : α} (h : IsMont M R Rinv) (md : MetaData μ)
+    (o0 o1 u e0 e1 pk0 pk1 : α) (rest : List α) :
+    ezPkNoP M u e0 e1 (M.toM pk0) (M.toM pk1) md (o0 :: o1 :: rest)
+      = some (montIf M md.isMont (u * pk0 + e0) :: montIf M md.isMont (u * pk1 + e1) ::
+              rest.map (fun o => o - o)) := by
+  simp [ezPkNoP, clearTail, encryptZeroPkNoP_degGe1 h]
+
+theorem encryptZeroPkNoP_deg0 (M : Mont α) (isMont : Bool) (o : List α) (ho : o.length ≤ 1)
+    (u e0 e1 pk0M pk1M : α) :
+    encryptZeroPkNoP M isMont o u e0 e1 pk0M pk1M = none := by
   match o, ho with
   | [], _ => rfl
   | [_], _ => rfl
+
+/-- phase of `(f(u·pk0 + e0) + m, f(u·pk1 + e1), 0, …, 0)`, `f = montIf b` -/
+theorem phase_encPk_tail {M : Mont α} {R Rinv : α} (h : IsMont M R Rinv) (b : Bool)
+    (u e0 e1 pk0 pk1 s epk m : α) (rest : List α) (hpk : pk0 + pk1 * s = epk) :
+    phase s ((montIf M b (u * pk0 + e0) + m) :: montIf M b (u * pk1 + e1) :: rest.map (fun o => o - o))
+      = m + montIf M b (u * epk + e0 + e1 * s) := by
+  subst hpk
+  simp only [phase, phase_clear]
+  cases b
+  · simp only [montIf, Bool.false_eq_true, if_false]; ring
+  · simp only [montIf, if_true, h.toM]; ring
 
 theorem phase_encPk (u e0 e1 pk0 pk1 s epk m : α) (hpk : pk0 + pk1 * s = epk) :
     phase s [u * pk0 + e0 + m, u * pk1 + e1] = m + u * epk + e0 + e1 * s := by
@@ -157,11 +207,11 @@ theorem phase_encPk (u e0 e1 pk0 pk1 s epk m : α) (hpk : pk0 + pk1 * s = epk) :
 section withP
 variable {β : Type} [CommRing β]
 
-theorem encryptZeroPk_deg1 {MQ : Mont α} {MQP : Mont β} {R' Rinv' : β} (h' : IsMont MQP R' Rinv')
+theorem encryptZeroPk_degGe1 {MQ : Mont α} {MQP : Mont β} {R' Rinv' : β} (h' : IsMont MQP R' Rinv')
     (ext : α → β) (down : β → α) (isMont : Bool) (o0 o1 u e0 e1 : α) (rest : List α) (pk0 pk1 : β) :
     encryptZeroPk MQ MQP ext down isMont (o0 :: o1 :: rest) u e0 e1 (MQP.toM pk0) (MQP.toM pk1)
-      = some ((if isMont then MQ.toM (down (ext u * pk0 + ext e0)) else down (ext u * pk0 + ext e0)) ::
-              (if isMont then MQ.toM (down (ext u * pk1 + ext e1)) else down (ext u * pk1 + ext e1)) :: rest) := by
+      = some (montIf MQ isMont (down (ext u * pk0 + ext e0)) ::
+              montIf MQ isMont (down (ext u * pk1 + ext e1)) :: rest) := by
   simp [encryptZeroPk, mulMont_toM h']
 
 theorem encryptZeroPk_deg0 (MQ : Mont α) (MQP : Mont β) (ext : α → β) (down : β → α) (isMont : Bool)
